@@ -13,6 +13,7 @@ import (
 	"strconv"
 	"strings"
 	"sync/atomic"
+	"time"
 
 	"github.com/onheap/eval"
 
@@ -962,4 +963,10 @@ func safeNewCtx(pid string, cc *eval.Config, vals map[string]interface{}) (*eval
 		return nil, Violf("%s: NewCtxFromVars panics: %v\nkey map=%v\nvalues=%v", pid, o, cc.VariableKeyMap, vals)
 	}
 	return ctx, nil
+}
+
+func init() {
+	// the process time zone is not UTC here: "date/datetime encode to UTC Unix seconds" whatever zone the
+	// process happens to run in (the models use their own civil arithmetic and never look at time.Local)
+	time.Local = time.FixedZone("UTC+05:30", 5*3600+1800)
 }
